@@ -81,6 +81,24 @@ def main():
     eofblk = block_after(b, r"ptr->stream_end") or ""
     flags["fix_bz_eof"] = bool(re.search(r"file->pos\s*=", eofblk)) and not re.search(r"nmemb\s*-\s*nbytes\s*/", b)
     if b and not eofblk: problems.append("PROBLEM _GD_Bzip2Read: stream_end branch not found")
+    # decoder-error exits of _GD_Bzip2Read / _GD_Bzip2Seek: is the stream restarted there
+    def err_blocks(body):
+        """the else-blocks that start with `file->error = ptr->bzerror;` and return -1"""
+        return re.findall(r"else\s*\{\s*file->error\s*=\s*ptr->bzerror;(.*?)return\s*-1;", body, re.S)
+    rb = err_blocks(need("bzip.c", "_GD_Bzip2Read")); sb = err_blocks(need("bzip.c", "_GD_Bzip2Seek"))
+    if not rb or not sb: problems.append("PROBLEM bzip.c: decoder-error exits of _GD_Bzip2Read/_GD_Bzip2Seek not found")
+    # 3ea47ff: the window is emptied at the decoder's position and file->pos follows it
+    def tidied(x):
+        return bool(re.search(r"ptr->base\s*\+=\s*ptr->end\s*;", x) and re.search(r"ptr->pos\s*=\s*ptr->end\s*=\s*0\s*;", x)
+                    and re.search(r"file->pos\s*=\s*ptr->base\s*/\s*GD_SIZE\(data_type\)\s*;", x))
+    restarts = [tidied(x) for x in rb + sb]
+    if restarts and any(restarts) != all(restarts):
+        problems.append("PROBLEM bzip.c: only some decoder-error exits empty the window (model has one flag)")
+    for x in rb + sb:
+        if not tidied(x) and re.search(r"ptr->|file->pos", x):
+            problems.append("PROBLEM bzip.c: a decoder-error exit changes the state in a way the model does not know")
+    flags["fix_bz_err"] = bool(restarts) and all(restarts)
+
     b = need("getdata.c", "_GD_DoField")
     g = need("getdata.c", "gd_getdata64")
     flags["fix_here"] = ("GD_HERE" not in b) and ("_GD_GetIOPos" in g)
@@ -116,7 +134,7 @@ def main():
            "From GD Require Import C02.Model.",
            "Definition tree_cfg : cfg :=",
            "  {| " + ";\n     ".join("%s := %s" % (k, "true" if flags[k] else "false") for k in
-                                     ["fix_bz_rewind", "fix_bz_eof", "fix_here", "fix_text_pseudo", "fix_leak", "fix_negseek", "fix_phase_sign"]) + " |}."]
+                                     ["fix_bz_rewind", "fix_bz_eof", "fix_here", "fix_text_pseudo", "fix_leak", "fix_negseek", "fix_phase_sign", "fix_bz_err"]) + " |}."]
     os.makedirs(os.path.join(VERIF, "coq", "Gen"), exist_ok=True)
     p = os.path.join(VERIF, "coq", "Gen", "C02Cfg.v")
     txt = "\n".join(out) + "\n"
